@@ -50,6 +50,16 @@ PROPS = {
         "assumptions": ["public keys are well-formed (wf_pk: modulus > 1, all bases units mod N, at least one base R_0)"],
         "partial": [],
     },
+    "C09": {
+        "suite": "C09", "ref_sample": 20, "trusted": CORE_TRUSTED,
+        "assumptions": ["'a revoked witness can never be made valid again' beyond 'Update never returns success with an invalid witness' is the strong-RSA argument of the accumulator papers (cited)"],
+        "partial": [],
+    },
+    "C10": {
+        "suite": "C10", "ref_sample": 20, "trusted": CORE_TRUSTED + ["go-multihash format (modelled for one-byte code/length), fxamacker/cbor, encoding/json"],
+        "assumptions": ["ECDSA signature verification of the accumulator is an oracle"],
+        "partial": [],
+    },
     "C12": {
         "suite": "C12", "ref_sample": 2, "trusted": CORE_TRUSTED,
         "assumptions": ["a verified range proof establishes the sum-of-squares relation by the two-transcript extractor + CL03 (cited); the theorems take the relation as hypothesis"],
